@@ -2,13 +2,14 @@ from propcommon import *  # noqa
 
 CFG = dict(
     level="proof",
-    lean_modules=["ElysModel.Props.C13"],
-    props_files=["ElysModel/Props/C13.lean"],
+    lean_modules=["ElysModel.Props.C13", "ElysModel.Props.C13Src"],
+    pre_cmds=[GO2LEAN],
+    props_files=["ElysModel/Props/C13.lean", "ElysModel/Props/C13Src.lean"],
     runs=[hist_run(), hist_run(focus="perp.", sq=4, st=6), gentrip_run()],
     rule=HIST_RULE,
-    trusted_base=COMMON_TB + ["per reward denom the block's flows (revenue in, stakers/protocol/provider out, claims paid, incentive funding) are x/bank transfers to/from the "
+    trusted_base=COMMON_TB + [SRC_TB, "per reward denom the block's flows (revenue in, stakers/protocol/provider out, claims paid, incentive funding) are x/bank transfers to/from the "
                               "masterchef module account, classified by recipient; the amount credited is the observed change of the sum of claimable amounts (W)"],
-    assumptions=["credit_le_amount relies on the chain-wide committed total being >= the sum of the accounts' balances (C12.total_ge_sum)",
+    assumptions=[SRC_ASSUME, "credit_le_amount relies on the chain-wide committed total being >= the sum of the accounts' balances (C12.total_ge_sum)",
                  "Eden/EdenB rewards are virtual (no bank backing) and are outside the solvency clause"],
     explanation="Theorems: one UpdateAccPerShare(amount) credits at most amount in total (given total committed >= sum of balances); a deposit earns nothing retroactively; "
                 "claims truncate; the solvency ledger (collect / incentive funding and crediting / claim) keeps balance >= credited-unclaimed over all histories; witnesses of the "
